@@ -167,6 +167,21 @@ pub fn wdec(ctx: &mut Ctx, plan: DecPlan) {
         if cfg!(miri) && ctx.expired() {
             break;
         }
+        // field-level tampers directly after the genuine record (what a stale "last verified" / "last key"
+        // cache would let through), then the genuine record again after forged copies of it were refused
+        let mut tampered_early = false;
+        if plan.tampers && b % 2 == 0 {
+            tampered_early = true;
+            let other_key = pool(scheme).iter().copied().find(|k| *k != rec.key).unwrap_or(rec.key);
+            let mut other_rec = gen::random_valid(&mut r, &[rec.key]);
+            if other_rec.items() == rec.items() {
+                other_rec.seq = other_rec.seq.wrapping_add(7);
+            }
+            for (cls, m) in gen::field_tampers(&rec, &other_key, &other_rec) {
+                judge_input(ctx, cls, &m, nt);
+            }
+            judge_input(ctx, "valid-again", &bytes, nt);
+        }
         if plan.structural {
             for (cls, m) in gen::structural_mutants(&rec, &mut r) {
                 judge_input(ctx, cls, &m, nt);
@@ -183,7 +198,7 @@ pub fn wdec(ctx: &mut Ctx, plan: DecPlan) {
         if cfg!(miri) && ctx.expired() {
             break;
         }
-        if plan.tampers {
+        if plan.tampers && !tampered_early {
             let other_key = pool(scheme)[(below(&mut r, pool(scheme).len() as u64)) as usize];
             let other_key = if other_key == rec.key { pool(scheme)[(pool(scheme).iter().position(|k| *k == rec.key).unwrap() + 1) % pool(scheme).len()] } else { other_key };
             let mut other_rec = gen::random_valid(&mut r, &[rec.key]);
@@ -223,9 +238,12 @@ pub fn wdec(ctx: &mut Ctx, plan: DecPlan) {
                 }
             }
         }
+        // the genuine record once more, after everything derived from it was shown to the decoder
+        judge_input(ctx, "valid-again", &bytes, nt);
     }
     if plan.both_keys && !cfg!(miri) {
         both_keys(ctx);
+        negated_key_pairs(ctx);
         // byte-value sweeps and ground signatures (special byte values inside keys, values, signatures)
         for (i, scheme) in [Scheme::Secp, Scheme::Ed, Scheme::Toy].into_iter().enumerate() {
             if !ctx.mine(1000 + i as u64) {
@@ -244,6 +262,17 @@ pub fn wdec(ctx: &mut Ctx, plan: DecPlan) {
             let rec = gen::random_valid(&mut r, pool(Scheme::Secp));
             for (cls, m) in gen::ground_signatures(&rec, 4000) {
                 judge_input(ctx, cls, &m, t);
+                // drop / pad the (zero) leading bytes of r and s, re-framed
+                if let Some((sg, _seq, _pairs)) = crate::refimpl::decode::structure(&m) {
+                    let h = rlp::header(&m).unwrap();
+                    let sig_item_len = rlp::header(&m[h.off..]).unwrap().total();
+                    let rest = &m[h.off + sig_item_len..];
+                    for alt in [sg[1..].to_vec(), [&sg[..32], &sg[33..]].concat(), [&[0u8][..], &sg[..]].concat(), sg[..63].to_vec()] {
+                        let mut p = rlp::enc_str(&alt);
+                        p.extend_from_slice(rest);
+                        judge_input(ctx, "sig-leading-byte-dropped", &rlp::enc_list_payload(&p), nt);
+                    }
+                }
                 // and its high-S twin / bit flips of the signature
                 for f in gen::bit_flips(&m).skip(16).take(64 * 8) {
                     judge_input(ctx, "bit-flip", &f, nt);
@@ -469,4 +498,34 @@ pub fn rlp_wrap_list(items: &[Vec<u8>]) -> Vec<u8> {
         p.extend_from_slice(i);
     }
     rlp::enc_list_payload(&p)
+}
+
+
+/// Records of a key k and of its negation n-k (same x coordinate, other parity) decoded alternately, and
+/// records that carry -P but are signed by P: what a cache keyed on the x coordinate alone confuses.
+pub fn negated_key_pairs(ctx: &mut Ctx) {
+    use crate::refimpl::u256;
+    for i in 0..6u64 {
+        if !ctx.mine(3000 + i) {
+            continue;
+        }
+        let s = crate::keys::secret_from(Scheme::Secp, 0x9e9 + i);
+        let neg = u256::sub(&u256::N, &s);
+        let k = RefKey::new(Scheme::Secp, s);
+        let nk = RefKey::new(Scheme::Secp, neg);
+        let mut r = rng_for(ctx.seed, &["negated"], i);
+        for round in 0..3 {
+            let a = gen::random_valid(&mut r, &[k]);
+            let b = gen::random_valid(&mut r, &[nk]);
+            judge_input(ctx, "valid-negated-pair", &a.bytes(), JudgeOpts { text: false });
+            judge_input(ctx, "valid-negated-pair", &b.bytes(), JudgeOpts { text: false });
+            // a record carrying -P signed by P, right after P's record
+            judge_input(ctx, "valid-negated-pair", &a.bytes(), JudgeOpts { text: false });
+            let mut forged = a.clone();
+            forged.map.insert(b"secp256k1".to_vec(), Item::S(nk.pub_bytes()));
+            forged.seq += round;
+            judge_input(ctx, "pubkey-negated", &gen::assemble(&k, &forged.items(), &forged.items()), JudgeOpts { text: false });
+            judge_input(ctx, "valid-negated-pair", &a.bytes(), JudgeOpts { text: false });
+        }
+    }
 }
